@@ -14,7 +14,10 @@ from vf.core.stats import Finding, Stats
 ID = 'C17'
 LEVEL = 'exploration'
 RULE = ('all ordered pairs and all ordered triples of all members of TlsVersion are enumerated (exhaustive); '
-        'additionally seeded Hypothesis permutations/sub-multisets of the member list are sorted/min/max/set-ed. '
+        'additionally seeded Hypothesis permutations/sub-multisets of the member list are sorted/min/max/set-ed, and '
+        'for every member every observer (str, repr, markdown, json, compose, all properties, comparisons, copy) '
+        'alone and all of them in two orders are applied to one object whose hash / equality / set membership is '
+        're-checked against a fresh object after each. '
         'A pair is non-trivial when its two versions differ, a triple when it has >=2 different versions, a '
         'permutation case when it holds >=3 different versions; distinct by the tuple of member names.')
 ASSUMPTIONS = [
@@ -120,9 +123,61 @@ def check_case(case):
                     break
         except TypeError as e:
             findings.append(Finding('trichotomy', {'what': 'comparison raised', 'error': repr(e), 'a': names}))
+    elif kind == 'history':
+        # observers of one object (rendering, serialising, composing, reading every public attribute) leave its
+        # hash, its equality with a fresh object and its set membership as they were
+        used = objs[0]
+        fresh = _obj(names[0])
+        before = hash(used)
+        holder = {used}
+        for op in case['ops']:
+            _observe(used, op)
+            if hash(used) != before or hash(used) != hash(_obj(names[0])):
+                findings.append(Finding('hash', {'what': 'hash changed after an observer', 'version': names[0], 'op': op}))
+                break
+            if not used == fresh or used not in holder or fresh not in holder or used not in {fresh}:
+                findings.append(Finding('hash', {'what': 'set membership / equality changed after an observer',
+                                                 'version': names[0], 'op': op}))
+                break
     else:
         raise ValueError(kind)
     return findings
+
+
+OBSERVERS = ('str', 'repr', 'markdown', 'json', 'compose', 'attributes', 'compare', 'copy', 'format')
+
+
+def _observe(obj, op):
+    import copy  # pylint: disable=import-outside-toplevel
+    try:
+        if op == 'str':
+            str(obj)
+        elif op == 'repr':
+            repr(obj)
+        elif op == 'markdown':
+            obj.as_markdown()
+        elif op == 'json':
+            obj.as_json()
+        elif op == 'compose':
+            obj.compose()
+        elif op == 'attributes':
+            for attribute in dir(type(obj)):
+                if not attribute.startswith('_') and isinstance(getattr(type(obj), attribute, None), property):
+                    getattr(obj, attribute)
+        elif op == 'compare':
+            other = _obj('TLS1_2')
+            _cmp_outcomes(obj, other)
+        elif op == 'copy':
+            copy.deepcopy(obj)
+            copy.copy(obj)
+        elif op == 'format':
+            '{}'.format(obj)
+        else:
+            raise ValueError(op)
+    except ValueError:
+        raise
+    except Exception:  # pylint: disable=broad-except
+        pass        # whether an observer works is the business of C14; here only what it leaves behind
 
 
 def _perm_strategy(names):
@@ -167,6 +222,15 @@ def run(ctx):
                 stats.finding(finding, case)
     stats.labels['triple'] += len(names) ** 3
     stats.sample('triple', {'kind': 'triple', 'versions': ['TLS1_3_DRAFT_28', 'TLS1_3', 'TLS1_3_GOOGLE_EXPERIMENT_2']})
+    for name in names:
+        for ops in [[op] for op in OBSERVERS] + [list(OBSERVERS), list(reversed(OBSERVERS))]:
+            case = {'kind': 'history', 'versions': [name], 'ops': ops}
+            stats.evaluated()
+            stats.label('history')
+            stats.nontriv(('history', name, tuple(ops)))
+            for finding in check_case(case):
+                stats.finding(finding, case)
+    stats.sample('history', {'kind': 'history', 'versions': [names[-1]], 'ops': list(OBSERVERS)})
     stats.extra['members'] = len(names)
     stats.extra['pairs'] = len(names) ** 2
     stats.extra['triples'] = len(names) ** 3
